@@ -156,9 +156,7 @@ static void check_case(vg::Src& s, vh::Ctx& c)
     c.expect(g->single_flow() == pm.out_single, "flow-direction", std::string("single_flow() = ") + (g->single_flow() ? "true" : "false"));
     auto names = g->op_names();
     c.expect(names.size() == ops.size(), "operators-size", std::to_string(names.size()));
-    static const char* kn[] = { "single_flow_router", "multi_flow_router", "pflood_sink_resolver", "mst_sink_resolver", "flow_snapshot" };
-    for (size_t i = 0; i < ops.size(); ++i)
-        c.expect(names[i] == kn[ops[i].kind], "operator-name", "operator " + std::to_string(i) + " is reported as " + names[i]);
+    // (the operators' own name strings are not part of the statement)
     c.expect(g->graph_snapshot_keys() == pm.graph_keys, "graph-snapshot-keys", "keys differ");
     c.expect(g->elevation_snapshot_keys() == pm.elev_keys, "elevation-snapshot-keys", "keys differ");
     GraphState st0 = g->state();
